@@ -11,7 +11,9 @@ pooling statistics, Mean(vecs, w) as exact rationals and the facts the rescale p
 
 spec -> impl: every emitted record is replayed (harness/missing.py) through rsatoolbox.rdm.compare,
 pool_rdm (both modules), boot_noise_ceiling, fit_regress / fit_regress_nn, RDMs.mean and
-rdm.combine.rescale; NaN patterns are written into arrays or made by the real
+rdm.combine.rescale (incl. stacks with negative entries and RDMs negatively related to the others: the
+constant must be POSITIVE), and two-call RDMs.mean sessions that share one weights object (array or
+rdm_descriptor; the object is fingerprinted around every call); NaN patterns are written into arrays or made by the real
 bootstrap_sample_pattern (draw forced) / from_partials.  Values are judged against an independent
 kernel fed with the exact statistics AND against the same public function on the entry-deleted plain
 arrays.  The Bures / Riemann measures are not part of the check: they are functions of the whole
@@ -201,6 +203,13 @@ def run(ctx):
                                            factors=(1, 2, 3), emitmod=12), 400),
             ('resc2', 'rescale', 4, 6, dict(shapes='One2', veccat='PosCat6', srcs=('free',), freemasks='MasksUpTo3',
                                             factors=(1, 3), emitmod=8), 300),
+            # crossnobis-type stacks with negative entries, incl. RDMs negatively related to the others
+            ('resc_signed', 'rescale', 4, 6, dict(shapes='One23', veccat='SignedCat6', srcs=('free', 'part'),
+                                                  freemasks='MasksUpTo1', families=('signed',), rots=(0, 1, 3),
+                                                  emitmod=4), 300),
+            # sessions of two mean calls sharing one weights object
+            ('mean2', 'mean2', 4, 6, dict(shapes='One2', freemasks='MasksUpTo1', wkinds=('rdm', 'entry'),
+                                          wcat='WCatDef', wecat='WECatDef', emitmod=8), 500),
         ]
     else:
         runs += [
@@ -224,6 +233,15 @@ def run(ctx):
                                          wkinds=('none', 'rdm', 'entry'), wcat='WCatDef', wecat='WECatDef', rots=(0, 1)), 1000),
             ('resc', 'rescale', 4, 6, dict(shapes='One23', veccat='PosCat6', srcs=('free', 'part'), freemasks='MasksUpTo2',
                                            factors=(1, 2, 3), emitmod=150, rots=(0, 1)), 3000),
+            ('resc_signed', 'rescale', 4, 6, dict(shapes='One23', veccat='SignedCat6', srcs=('free', 'part'),
+                                                  freemasks='MasksUpTo2', families=('signed',), rots=(0, 1, 2, 3, 4, 5),
+                                                  emitmod=12), 3000),
+            ('resc_signed3', 'rescale', 3, 3, dict(shapes='One23', veccat='SignedCat3', srcs=('free',), minkeep=1,
+                                                   freemasks='MasksUpTo1', families=('signed',), rots=(0, 1, 2, 3)), 100),
+            ('mean2', 'mean2', 4, 6, dict(shapes='One23', freemasks='MasksUpTo1', wkinds=('rdm', 'entry'),
+                                          wcat='WCatDef', wecat='WECatDef', emitmod=40, rots=(0, 2)), 3000),
+            ('mean2b', 'mean2', 3, 3, dict(shapes='One23', freemasks='AllMasks', minkeep=0, wkinds=('rdm', 'entry'),
+                                           wcat='WCatDef', wecat='WECatDef', emitmod=60), 1000),
         ]
     ctx.exhaustive = False
     first_cmp = None
@@ -236,11 +254,14 @@ def run(ctx):
         if not r.n_emitted:
             raise MachineryError(f'{name}: TLC emitted nothing')
         tot, classes = replay(ctx, r, nc, name, floor=floor)
+        if name.startswith('resc_signed') and sum(k for c, k in classes.items()
+                                                  if '/anti' in c and 'not-converged' not in c) < 20:
+            raise MachineryError(f'{name}: vacuous - no stack with an RDM negatively related to the others: {classes}')
         if mode == 'compare':
             nerr = sum(n for c, n in classes.items() if c not in ('none', 'common'))
             taken = {'Misaligned': nerr, 'Parse': tot['n_rec'] - nerr, 'Measure': tot['n_rec'] - nerr}
         else:
-            taken = {M.ACTIONS[mode][0]: tot['n_rec']}
+            taken = {a: tot['n_rec'] for a in M.ACTIONS[mode]}
         for a, k in taken.items():
             if k == 0:
                 raise MachineryError(f'{name}: vacuous - action {a} never taken')
